@@ -84,7 +84,7 @@ Proof. unfold arch_named. destruct (arch_ok name); [|discriminate]. intros E. in
 Lemma substvar_inv : forall i name p r, substvar_loop name i = Ok (p, r) -> forallb subc name = true -> wf_subst p.
 Proof.
   induction i as [|c i IH]; intros name p r; cbn [substvar_loop]; [discriminate|].
-  destruct (eqc c 0) eqn:C0; [discriminate|]. destruct (eqc c 125) eqn:C125.
+  destruct (bad_in_substvar c) eqn:C0; [discriminate|]. destruct (eqc c 125) eqn:C125.
   - cbv zeta. destruct (_ || _ || _); [|discriminate]. intros E H. inversion E; subst. constructor; cbn; auto.
   - intros E H. apply (IH _ _ _ E). rewrite forallb_app, H. cbn. unfold subc. now rewrite C0, C125.
 Qed.
@@ -102,7 +102,7 @@ Qed.
 Lemma arch_name_inv : forall i name a r, arch_name_loop name i = Ok (a, r) -> forallb archc name = true -> arch_from archc a.
 Proof.
   induction i as [|c i IH]; intros name a r; cbn [arch_name_loop]; [discriminate|].
-  destruct (eqc c 0) eqn:C0; [discriminate|]. destruct (eqc c 33) eqn:C33; [discriminate|].
+  destruct (bad_in_arch c) eqn:C0; [discriminate|]. destruct (eqc c 33) eqn:C33; [discriminate|].
   destruct (eqc c 93 || is_ws c) eqn:S.
   - intros E H. apply arch_named_inv in E as (O&->&_). exists name. auto.
   - intros E H. apply (IH _ _ _ E). rewrite forallb_app, H. cbn. unfold archc. apply orb_false_iff in S as [S1 S2].
@@ -145,7 +145,7 @@ Lemma number_inv : forall i num n r, number_loop num i = Ok (n, r) -> forallb nu
   exists full, n = rtrim full /\ forallb numc full = true /\ (exists t, full = num ++ t).
 Proof.
   induction i as [|c i IH]; intros num n r; cbn [number_loop]; [discriminate|].
-  destruct (eqc c 0) eqn:C0; [discriminate|]. destruct (eqc c 41) eqn:C41.
+  destruct (bad_in_number c) eqn:C0; [discriminate|]. destruct (eqc c 41) eqn:C41.
   - intros E H. inversion E; subst. exists num. split; [reflexivity|]. split; [exact H|]. exists []. now rewrite app_nil_r.
   - intros E H. destruct (IH _ _ _ E) as (full&A&B&(t&C)).
     + rewrite forallb_app, H. cbn. unfold numc. now rewrite C0, C41.
@@ -187,7 +187,7 @@ Proof.
   - subst n. now apply rtrim_forallb.
   - (* the first character of the number is the non-blank head of the input *)
     pose proof (eat_ws_head k) as Hh. destruct (eat_ws k) as [|c j] eqn:Ek; [cbn in N; discriminate|].
-    cbn [peek] in Hh. cbn [number_loop] in N. destruct (eqc c 0) eqn:C0; [discriminate|]. destruct (eqc c 41) eqn:C41.
+    cbn [peek] in Hh. cbn [number_loop] in N. destruct (bad_in_number c) eqn:C0; [discriminate|]. destruct (eqc c 41) eqn:C41.
     + inversion N; subst. reflexivity.
     + destruct (number_inv _ _ _ _ N) as (full2&En2&_&(t2&Et2)).
       { cbn. unfold numc. now rewrite C0, C41. }
@@ -223,7 +223,7 @@ Lemma stage_loop_inv : forall i st st' r, stage_loop st i = Ok (st', r) -> foral
   forallb stagec (s_name st') = true /\ (s_not st = true -> s_not st' = true) /\ (s_name st <> [] -> s_name st' <> []).
 Proof.
   induction i as [|c i IH]; intros st st' r; cbn [stage_loop]; [discriminate|].
-  destruct (eqc c 0) eqn:C0; [discriminate|]. destruct (eqc c 33) eqn:C33.
+  destruct (bad_in_stage c) eqn:C0; [discriminate|]. destruct (eqc c 33) eqn:C33.
   - destruct (s_not st) eqn:Sn; [discriminate|]. intros E H. destruct (IH _ _ _ E H) as (A&B&C). cbn [s_not s_name] in *.
     split; [exact A|]. split; [discriminate|exact C].
   - destruct (eqc c 62 || is_ws c) eqn:S.
@@ -238,7 +238,7 @@ Lemma stage_first i st' r : i <> [] -> is_ws (peek i) = false -> eqc (peek i) 62
   stage_loop {| s_not := false; s_name := [] |} i = Ok (st', r) -> wf_stage st'.
 Proof.
   intros Hne Hw H62. destruct i as [|c i]; [congruence|]. cbn [peek] in *. cbn [stage_loop].
-  destruct (eqc c 0) eqn:C0; [discriminate|]. destruct (eqc c 33) eqn:C33.
+  destruct (bad_in_stage c) eqn:C0; [discriminate|]. destruct (eqc c 33) eqn:C33.
   - cbn [s_not]. intros E. destruct (stage_loop_inv _ _ _ _ E eq_refl) as (A&B&_). constructor; [exact A|].
     intros Hn. rewrite (B eq_refl) in Hn. discriminate.
   - rewrite H62, Hw. cbn [orb]. intros E.
